@@ -477,6 +477,9 @@ class _ExprNorm(ast.NodeTransformer):
         # dict(k=v, ..) == {"k": v, ..}
         if isinstance(f, ast.Name) and f.id == "dict" and not node.args and node.keywords and all(k.arg is not None for k in node.keywords):
             return ast.copy_location(ast.Dict([ast.Constant(k.arg) for k in node.keywords], [k.value for k in node.keywords]), node)
+        # dict(<(k, v) for ..>) == {k: v for ..}
+        if isinstance(f, ast.Name) and f.id == "dict" and len(node.args) == 1 and not node.keywords and isinstance(node.args[0], (ast.GeneratorExp, ast.ListComp)) and isinstance(node.args[0].elt, ast.Tuple) and len(node.args[0].elt.elts) == 2:
+            return ast.copy_location(ast.DictComp(node.args[0].elt.elts[0], node.args[0].elt.elts[1], node.args[0].generators), node)
         # list(<generator expression>) == [<list comprehension>]
         if isinstance(f, ast.Name) and f.id == "list" and len(node.args) == 1 and not node.keywords and isinstance(node.args[0], ast.GeneratorExp):
             return ast.copy_location(ast.ListComp(node.args[0].elt, node.args[0].generators), node)
@@ -679,7 +682,7 @@ def propagate_temporaries(fn: ast.AST, keep: Set[str]) -> int:
                 st = blk[i]
                 if isinstance(st, ast.Assign) and len(st.targets) == 1 and isinstance(st.targets[0], ast.Name):
                     nm = st.targets[0].id
-                    if nm not in keep and cnt.get(nm, 0) == 1 and not nm.startswith("__"):
+                    if nm not in keep and cnt.get(nm, 0) == 1 and (not nm.startswith("__") or nm.startswith("__h")):
                         val = st.value
                         total = _uses(fn, nm)
                         # (a) side-effect-free temporaries over stable names
@@ -1450,7 +1453,10 @@ def expression_bodied(hdef: ast.FunctionDef) -> bool:
     written with guard clauses can be inlined into the test that calls it); a generator helper that is one
     `for x in I: yield E` loop over a plain name / attribute becomes `return (E for x in I)`."""
     body = [s for s in hdef.body if not _docstring(s)]
-    if len(body) == 1 and isinstance(body[0], ast.For) and not body[0].orelse and _alias_expr(body[0].iter):
+    noimp = [s for s in body if not isinstance(s, (ast.Import, ast.ImportFrom))]
+    if len(noimp) == 1 and isinstance(noimp[0], ast.For) and not noimp[0].orelse:
+        # (local imports of the helper are not carried over: the canonical form is read, never run)
+        body = noimp
         lb = [x for x in body[0].body if not isinstance(x, ast.Pass)]
         conds = []
         while len(lb) == 1 and isinstance(lb[0], ast.If) and not [x for x in lb[0].orelse if not isinstance(x, ast.Pass)]:
